@@ -89,3 +89,85 @@ def c16_sshsig_host_cert(rp):               # fixed 0617eca
 
 def c16_extension_data_not_consumed(rp):    # fixed d13f6e7
     return rp.get('kind') == 'cert_extensions'
+
+
+def c15_der_deep_nesting(rp):               # fixed 364f43a
+    return rp.get('kind') == 'der_deep_nesting' or rp.get('group') == 'der_deep_nesting'
+
+
+def c15_pkcs12_pbe_passphrase(rp):          # fixed 4926bda
+    return (rp.get('group') == 'pkcs12_pbe_passphrase' and (rp.get('opts') or {}).get('pbe_version') == 1 and
+            rp.get('kind') in ('private_cross_type_passphrase', 'pyca_read_private', 'openssl_write_private'))
+
+
+def c15_public_comment_newline(rp):         # fixed fdd47d0
+    c = rp.get('comment') or ''
+    return (rp.get('kind') in ('public_comment_hard', 'public_roundtrip', 'certificate_roundtrip') and
+            rp.get('format') in ('openssh', 'rfc4716') and ('\n' in c or '\r' in c))
+
+
+_WS = ' \t\n\r\x0b\x0c'
+
+
+def c15_public_comment_edge_blanks(rp):     # known: exactly "the comment read back is the comment minus its edge blanks"
+    c = rp.get('comment')
+    return (rp.get('kind') == 'public_comment_hard' and rp.get('format') == 'openssh' and isinstance(c, str) and
+            '\n' not in c and '\r' not in c and c.strip(_WS) != c and c.strip(_WS) != '' and
+            rp.get('read_back') == c.strip(_WS) and rp.get('keys_in_file') == 1)
+
+
+# ---- C19: the class is attributed by the harness (empty-chunk: the deviation disappears when the empty chunks
+# are removed from the schedule; stale-pause: a partial read with no cause after the window had filled)
+
+def c19_empty_chunk(rp):                    # fixed b8d274c
+    if rp.get('class') != 'empty-chunk':
+        return False
+    if rp.get('kind') == 'e2e_text':
+        return True
+    return rp.get('kind') == 'stream' and any(
+        (st[0] == 'ev' and st[1] == 'data' and st[2] == []) or
+        (st[0] == 'run' and any(e[0] == 'data' and e[1] == [] for b in st[1] for e in b))
+        for st in rp.get('sched', []))
+
+
+def c19_stale_pause(rp):                    # fixed d47620c
+    return (rp.get('kind') == 'stream' and rp.get('class') == 'stale-pause' and rp.get('limit', 0) > 0
+            and any(st[0] == 'ev' and st[1] == 'exn' for st in rp.get('sched', [])))
+
+
+# ---- C17 (replay objects written by harness/props/c17.py; 'kind' names the class of failure) ----------
+
+def c17_revoked_port_fallback(rp):          # fixed 890407a
+    return rp.get('kind') == 'kh_revoked_port_fallback' and bool((rp.get('query') or [0, 0, 0])[2])
+
+
+def c17_empty_component(rp):                # fixed 1ebb7df
+    return rp.get('kind') == 'kh_empty_component' and any(
+        '' in ln.get('pattern', 'x').split(',') for ln in rp.get('lines', []) if isinstance(ln, dict) and not ln.get('skip'))
+
+
+def c17_option_backslash(rp):               # fixed 2e10b73
+    return rp.get('kind') == 'ak_backslash' and '\\' in (rp.get('line') or {}).get('options', '')
+
+
+def c17_option_keyword_case(rp):            # fixed c342bf5
+    o = (rp.get('line') or {}).get('options', '')
+    return rp.get('kind') == 'ak_keyword_case' and o != o.lower()
+
+
+def c17_impossible_key_params(rp):          # fixed e01fa70
+    return rp.get('kind') == 'damaged_key' and rp.get('damage') in (
+        'rsa_zero', 'rsa_even_e', 'ec_point_off_curve', 'ec_empty_point', 'dss_zero')
+
+
+def c17_backslash_before_quote(rp):         # known: an odd run of backslashes of the value directly in front of a quote
+    import re
+    o = (rp.get('line') or {}).get('options', '')
+    # in the OpenSSH-quoted text such a value shows as an even, non-zero run of backslashes in front of a quote
+    return rp.get('kind') == 'ak_backslash_quote' and re.search(r'(?<!\\)(\\\\)+"', o) is not None
+
+
+# ---- C04 (replay objects written by harness/props/c04.py) -----------------------------------------------
+
+def c04_cert_subject_revoked(rp):           # fixed 58fab7a
+    return rp.get('kind') == 'cert_subject_revoked' and rp.get('presented', {}).get('form') == 'cert'
